@@ -8,8 +8,10 @@
             obj.insert(elem, None)       # AttributeError: tuple / dict / set / frozenset / str / bytes
                                          # TypeError: list.insert(0.5, None)
                                          # a negative int IS < len(obj): list.insert(-1, None) (Python clamps)
-        self._set_new_value(...)         # never raises (everything is caught and logged)
-    DeltaModel.add_one only inserts into a list at 0 <= elem < len and never raises.
+        self._set_new_value(...)         # never raises (everything is caught and logged); a tuple is coerced to a
+                                         # list BEFORE the write: a failing write leaves the coercion behind
+    DeltaModel.add_one only inserts into a list at 0 <= elem < len, never raises, and a failing write on a tuple
+    only logs the error.
 
     _do_item_removed (delta.py 568-607), per item:
         current = obj[elem]              # KeyError/IndexError/AttributeError/TypeError caught -> look for the value
@@ -22,11 +24,23 @@
                                          # but NOT TypeError: del 'abc'[0] escapes
     DeltaModel.remove_one logs an error where the str/bytes deletion escapes, and does nothing for a non-int elem.
 
+    _do_post_process (delta.py 480-484 -> _do_values_or_type_changed with is_type_change, no new_value), per
+    coerced tuple path:
+        current = self._get_elem_and_compare_to_old_value(obj, path_for_err_reporting=path, ...)
+                                         # path is a TUPLE of elements here: when obj[elem] fails the error message is
+                                         # built with '.'.join(i[0] for i in path): TypeError as soon as one key is
+                                         # not a str ("sequence item 1: expected str instance, int found")
+        new_value = tuple(current)       # succeeds on a dict (its keys), a set, a str (its characters), bytes (ints);
+                                         # on failure the message formats obj[elem]: at the root path obj is the Delta:
+                                         # TypeError ('Delta' object is not subscriptable)
+    DeltaModel.do_post logs an error in all these cases.
+
     [res A] = [inl e]: the exception of class e escapes Delta.__add__;  [inr x]: normal completion.
 
     Two faithful runs:
-      apply_f   DeltaModel's passes, with add_one_f in the two item-added passes
-      apply_ff  the same, and remove_one_f in the two item-removed passes
+      apply_f   DeltaModel's passes, with add_one_f (the insertion) in the item-added passes
+      apply_ff  add_one_ff (the insertion, and the write that fails after a coercion), remove_one_f in the two
+                item-removed passes, post_one_f in the post-processing
     Domain of faithfulness (explicit boolean [dom_delta], plus the standing assumptions of DeltaModel: tree-shaped
     inputs, no container inside a tuple): no removal path (iterable_item_removed, iterable_item_moved,
     dictionary_item_removed) is the root path: `del self.root` makes every later pass log errors and __add__ end in
@@ -67,8 +81,41 @@ Definition clamp_index (n : nat) (z : Z) : nat :=
 Definition py_insert (xs : list value) (z : Z) (v : value) : list value :=
   list_insert xs (clamp_index (List.length xs) z) v.
 
-(* one item of _do_item_added *)
-Definition add_one_f (ins : bool) (s : st) (p : path) (v : option value) : res st :=
+(* _set_new_value as _do_item_added uses it (no read of obj[elem] before the write, unlike values_changed /
+   type_changes where a failing read skips the item): a tuple is coerced to a list, put back into its parent and
+   registered for post-processing BEFORE the write is attempted, so a failing write (index out of range, float
+   index) leaves the coercion behind: the object is a list for the later passes (_do_item_removed searches lists
+   only) and whatever sits at that path at the end is converted with tuple(...).  DeltaModel.set_new_value only
+   logs the error. *)
+(* obj[k] = ... would succeed on the (coerced) object *)
+Definition can_set (obj : value) (k : atom) : bool :=
+  match set_item (untuple obj) k (VAtom ANone) with Some _ => true | None => false end.
+
+Definition set_new_value_f (s : st) (p : path) (v : value) : st :=
+  match p with
+  | [] => with_root s v
+  | _ =>
+      let op := removelast p in
+      let k := key_atom (last p (PIdx 0)) in
+      match resolve (root s) op with
+      | Some obj =>
+          let coerced := is_tuple obj in
+          match upd (root s) op (fun o => set_item (untuple o) k v) with
+          | Some r' => mkSt r' (if coerced then post s ++ [op] else post s) (errs s)
+          | None =>
+              if coerced && negb (can_set obj k) then      (* the write itself fails, after the coercion *)
+                match upd (root s) op (fun o => Some (untuple o)) with
+                | Some r1 => err (mkSt r1 (post s ++ [op]) (errs s))
+                | None => err s           (* the parent is a tuple: outside the domain *)
+                end
+              else err s
+          end
+      | None => err s
+      end
+  end.
+
+(* one item of _do_item_added; [setv] = the model of _set_new_value used for the final write *)
+Definition add_one_g (setv : st -> path -> value -> st) (ins : bool) (s : st) (p : path) (v : option value) : res st :=
   let nv := match v with Some x => x | None => VAtom ANone end in
   match p with
   | [] => if ins then inl EType            (* obj is the Delta itself: len(self) *)
@@ -85,7 +132,7 @@ Definition add_one_f (ins : bool) (s : st) (p : path) (v : option value) : res s
             | Some n =>
                 match elem_lt k n with
                 | None => inl EType
-                | Some false => inr (set_new_value s p nv)
+                | Some false => inr (setv s p nv)
                 | Some true =>
                     match obj with
                     | VList xs =>
@@ -96,15 +143,20 @@ Definition add_one_f (ins : bool) (s : st) (p : path) (v : option value) : res s
                                       | Some r' => with_root s r'
                                       | None => err s
                                       end in
-                            inr (set_new_value s1 p nv)
+                            inr (set_new_value s1 p nv       (* obj is a list: no coercion *))
                         end
                     | _ => inl EAttribute              (* 'tuple' object has no attribute 'insert' *)
                     end
                 end
             end
-          else inr (set_new_value s p nv)
+          else inr (setv s p nv)
       end
   end.
+
+(* insertion faithful, final write as in DeltaModel *)
+Definition add_one_f := add_one_g set_new_value.
+(* insertion and final write faithful *)
+Definition add_one_ff := add_one_g set_new_value_f.
 
 (* _find_closest_iterable_element_for_index for a numeric elem given doubled (t = 2*elem: ints, bools, half-integer floats) *)
 Fixpoint closest2_go (xs : list value) (idx : nat) (t : Z) (expected : value)
@@ -165,6 +217,40 @@ Definition remove_one_f (bidir : bool) (s : st) (p : path) (expected : value) : 
       end
   end.
 
+(* tuple(x) *)
+Definition py_tuple (v : value) : option value :=
+  match v with
+  | VList xs | VTuple xs => Some (VTuple xs)
+  | VDict kvs => Some (VTuple (map (fun kv => VAtom (fst kv)) kvs))
+  | VSet xs | VFrozen xs => Some (VTuple (map VAtom xs))           (* iteration order *)
+  | VAtom (AStr s) => Some (VTuple (map (fun c => VAtom (AStr [c])) s))
+  | VAtom (ABytes s) => Some (VTuple (map (fun c => VAtom (AInt (Z.of_N c))) s))
+  | VAtom _ => None
+  end.
+Definition all_str_keys (p : path) : bool :=
+  forallb (fun k => match key_atom k with AStr _ => true | _ => false end) p.
+
+(* one path of _do_post_process *)
+Definition post_one_f (s : st) (p : path) : res st :=
+  match p with
+  | [] => match py_tuple (root s) with
+          | Some r' => inr (with_root s r')
+          | None => inl EType             (* the failure message subscripts the Delta *)
+          end
+  | _ =>
+      match resolve (root s) (removelast p) with
+      | None => inr (err s)
+      | Some obj =>
+          match get_item obj (key_atom (last p (PIdx 0))) with
+          | None => if all_str_keys p then inr (err s) else inl EType     (* '.'.join over the elements *)
+          | Some _ => inr (match upd (root s) p py_tuple with
+                           | Some r' => with_root s r'
+                           | None => err s
+                           end)
+          end
+      end
+  end.
+
 Fixpoint fold_res {A} (f : st -> A -> res st) (l : list A) (s : st) : res st :=
   match l with
   | [] => inr s
@@ -173,6 +259,12 @@ Fixpoint fold_res {A} (f : st -> A -> res st) (l : list A) (s : st) : res st :=
 
 Definition lift_rem (bidir : bool) (s : st) (p : path) (e : value) : res st := inr (remove_one bidir s p e).
 Definition lift_add (ins : bool) (s : st) (p : path) (v : option value) : res st := inr (add_one ins s p v).
+Definition post_one (s : st) (p : path) : st :=
+  match upd (root s) p (fun o => match o with VList xs => Some (VTuple xs) | VTuple xs => Some (VTuple xs) | _ => None end) with
+  | Some r' => with_root s r'
+  | None => err s
+  end.
+Definition lift_post (s : st) (p : path) : res st := inr (post_one s p).
 
 Section Faithful.
 Variable conv : ty -> value -> option value.
@@ -181,6 +273,7 @@ Variable add_order : list (path * option value) -> list (path * option value).
 (* the two per-item functions are parameters so that the runs below can be compared *)
 Variable rem1 : bool -> st -> path -> value -> res st.
 Variable add1 : bool -> st -> path -> option value -> res st.
+Variable post1 : st -> path -> res st.
 
 Definition do_item_removed_w (bidir : bool) (l : list (path * value)) (s : st) : res st :=
   fold_res (fun s pv => rem1 bidir s (fst pv) (snd pv)) (rem_order l) s.
@@ -199,6 +292,8 @@ Definition do_iterable_item_added_w (d : delta) (s : st) : res st :=
   | _ => do_item_added_w true false (map (fun m => (snd (fst m), Some (snd m))) (d_moved d)) s1
   end).
 
+Definition do_post_w (s : st) : res st := fold_res post1 (post s) s.
+
 Definition apply_w (d : delta) (v : value) : res (value * nat) :=
   let b := d_bidir d in
   let s := mkSt v [] 0 in
@@ -211,20 +306,21 @@ Definition apply_w (d : delta) (v : value) : res (value * nat) :=
   rbind (do_iterable_item_added_w d s) (fun s =>
   rbind (do_item_added_w false false (map (fun pv => (fst pv, Some (snd pv))) (d_dadd d)) s) (fun s =>
   rbind (do_item_removed_w b (d_drem d) s) (fun s =>
-  let s := do_post s in
-  inr (root s, errs s))))).
+  rbind (do_post_w s) (fun s =>
+  inr (root s, errs s)))))).
 End Faithful.
 
 (* Delta.__add__ with the faithful item-added passes *)
 Definition do_item_added_f add_order := do_item_added_w add_order add_one_f.
 Definition do_iterable_item_added_f add_order := do_iterable_item_added_w add_order add_one_f.
 Definition apply_f conv rem_order add_order : delta -> value -> res (value * nat) :=
-  apply_w conv rem_order add_order lift_rem add_one_f.
+  apply_w conv rem_order add_order lift_rem add_one_f lift_post.
 (* ... and the faithful item-removed passes *)
 Definition do_item_removed_f rem_order := do_item_removed_w rem_order remove_one_f.
 Definition do_iterable_item_removed_f rem_order := do_iterable_item_removed_w rem_order remove_one_f.
+Definition do_post_f := do_post_w post_one_f.
 Definition apply_ff conv rem_order add_order : delta -> value -> res (value * nat) :=
-  apply_w conv rem_order add_order remove_one_f add_one_f.
+  apply_w conv rem_order add_order remove_one_f add_one_ff post_one_f.
 
 (* option view: None = some exception escapes *)
 Definition res_opt {A} (r : res A) : option A := match r with inl _ => None | inr x => Some x end.
@@ -262,6 +358,17 @@ Definition add_reg (ins : bool) (s : st) (p : path) : bool :=
       end
   end.
 
+(* ... and no write fails on a tuple *)
+Definition write_reg (s : st) (p : path) : bool :=
+  match p with
+  | [] => true
+  | _ =>
+      match resolve (root s) (removelast p) with
+      | None => true
+      | Some obj => negb (is_tuple obj) || can_set obj (key_atom (last p (PIdx 0)))
+      end
+  end.
+
 (* an item-removed step is regular: not the root path; a list is searched only with an int elem (or is empty);
    nothing is deleted from a str / bytes *)
 Definition rem_reg (s : st) (p : path) (expected : value) : bool :=
@@ -279,6 +386,22 @@ Definition rem_reg (s : st) (p : path) (expected : value) : bool :=
               || match xs with [] => true | _ => false end
               || match int_of_atom k with Some _ => true | None => false end
           | _ => match cur with Some _ => negb (is_text obj) | None => true end
+          end
+      end
+  end.
+
+(* a post-processing step is regular: the coerced tuple is still a list (or a tuple), or both sides log an error *)
+Definition is_seq (v : value) : bool := match v with VList _ | VTuple _ => true | _ => false end.
+Definition post_reg (s : st) (p : path) : bool :=
+  match p with
+  | [] => is_seq (root s)
+  | _ =>
+      match resolve (root s) (removelast p) with
+      | None => true
+      | Some obj =>
+          match get_item obj (key_atom (last p (PIdx 0))) with
+          | None => all_str_keys p
+          | Some c => is_seq c || match py_tuple c with None => true | Some _ => false end
           end
       end
   end.
@@ -323,7 +446,27 @@ Definition state8 (d : delta) (v : value) : st :=
 (* DeltaModel's run of d on v is insert-regular *)
 Definition insert_regular (d : delta) (v : value) : bool := iterable_added_reg d (state6 d v).
 (* ... and its two removal passes are regular *)
+Definition state9 (d : delta) (v : value) : st := do_item_removed rem_order (d_bidir d) (d_drem d) (state8 d v).
 Definition removal_regular (d : delta) (v : value) : bool :=
   removed_reg (d_bidir d) (d_irem d ++ map (fun m => (fst (fst m), snd m)) (d_moved d)) (state5 d v)
   && removed_reg (d_bidir d) (d_drem d) (state8 d v).
+(* ... and no write of its three item-added passes fails on a tuple *)
+Definition written_reg (sort ins : bool) (l : list (path * option value)) (s : st) : bool :=
+  fold_reg (fun s pv => add_one ins s (fst pv) (snd pv)) (fun s pv => write_reg s (fst pv))
+           (if sort then add_order l else l) s.
+Definition added_items (d : delta) : list (path * option value) :=
+  map (fun pv => (fst pv, Some (snd pv))) (d_iadd d) ++ map (fun m => (snd (fst m), None)) (d_moved d).
+Definition state7a (d : delta) (s : st) : st :=
+  match added_items d with [] => s | _ => do_item_added add_order true true (added_items d) s end.
+Definition write_regular (d : delta) (v : value) : bool :=
+  (match added_items d with [] => true | _ => written_reg true true (added_items d) (state6 d v) end)
+  && (match d_moved d with
+      | [] => true
+      | _ => written_reg true false (map (fun m => (snd (fst m), Some (snd m))) (d_moved d)) (state7a d (state6 d v))
+      end)
+  && written_reg false false (map (fun pv => (fst pv, Some (snd pv))) (d_dadd d))
+                 (do_iterable_item_added add_order d (state6 d v)).
+(* ... and its post-processing is regular *)
+Definition post_regular (d : delta) (v : value) : bool :=
+  fold_reg post_one (fun s p => post_reg s p) (post (state9 d v)) (state9 d v).
 End Regular.
